@@ -1,8 +1,8 @@
-HOOK_COMMITS = []
+HOOK_COMMITS = ['c1c434b']
 NOTES = ('All checks are driven by bin/check <ID> --tier quick|thorough; exit 0/1/2 as described in DESIGN.md 2.4. '
          'known_findings.json lists recorded defects and fixed ones.')
 _pending = 'check not built yet in this revision (see DESIGN.md); will be claimed when its specification and harness exist'
-for _p in ['C02','C03','C04','C05','C06','C07','C08','C10','C11','C13','C14','C15','C16','C18','C19','C20']:
+for _p in ['C02','C03','C04','C05','C06','C07','C08','C10','C11','C13','C15','C16','C18','C19','C20']:
     NA[_p] = _pending
 NA['C01'] = ('power balance needs numerical integration of the reported pattern over the sphere and a 1.5 % physical '
              'tolerance of the true kernel: numeric accuracy with no discrete content, nothing a TLA+ specification can decide (DESIGN.md section 5)')
@@ -36,3 +36,16 @@ check('C17', 'model_checking',
       'pulses, both forms must give bit-identical right-hand sides and (sampled) identical solved reports, invalid numbers must be diagnostics.',
       'Trusted: TLC, concretiser, report parser. Wires only. Solved-report comparison on a seeded sample (10 % quick, 30 % thorough).',
       'TLC model checking of Topology.tla + spec-to-code replay through main()', 'DESIGN.md 4 C17')
+
+check('C14', 'model_checking',
+      'TLC checks NoStaleUse, FieldsFresh and RequestsIndependent on spec/Lifecycle.tla for every well-formed history (frequency changes, '
+      'compute, far- and near-field requests) up to length 6 (7 thorough) and dumps them. spec->code: every history is replayed on four model '
+      'archetypes covering all load kinds; after each step Z, rhs, currents, power, far-field and near-field arrays must equal bit for bit '
+      'what a fresh object computing only that step gives. code->spec: the hook events (SetF, FillZ, CacheFill, CacheUse, ApplyLoads, FillRhs, '
+      'Solve, FarField, NearField) of those runs and of frequency sweeps through main are validated by TraceLifecycle.tla in one batched TLC '
+      'run (stale cache use, loads applied twice, results of another frequency are flagged per trace). Sweep step k of main equals a fresh '
+      'run of main (text of the frequency dependent blocks). The same command line in 4 (8) fresh processes with different hash seeds and '
+      'allocation patterns gives byte-identical report and --output-cmdline file.',
+      'Trusted: TLC, the archetype list (harness/models.py), single-threaded BLAS for bit-exact comparison. Field requests are only issued after '
+      'a compute at the current frequency (as main does); a field request after a frequency change without compute has no defined result.',
+      'TLC model checking of Lifecycle.tla + history replay against fresh objects + batched trace validation', 'DESIGN.md 4 C14, 3.4')
